@@ -14,6 +14,7 @@ import (
 	"runtime"
 	"strings"
 	"sync"
+	"syscall"
 	"time"
 )
 
@@ -45,6 +46,13 @@ type Ctx struct {
 	lastSnap  time.Time
 	violKeys  map[string]int
 	notes     map[string]string
+
+	guardMu     sync.Mutex
+	guardKey    string
+	guardStream string
+	guardCase   int
+	guardWhat   string
+	guardCPU    time.Duration
 
 	onlyStream  string
 	fromStream  string
@@ -298,24 +306,61 @@ func (c *Ctx) Done() {
 	}
 }
 
-// Guard starts a watchdog that ends the process (exit 3, "MEMGUARD" on stderr)
-// when the heap exceeds limit bytes: the case in progress is attributed by the
-// driver through the progress mark.
-func (c *Ctx) Guard(limit uint64) {
+// Guard starts a watchdog that ends the process (exit 3) when the case in
+// progress exceeds the heap limit or the CPU budget. Before exiting it emits the
+// violation itself, with the key announced through SetGuardKey, so that the
+// finding has the same key whether it was caught by the in-line accounting or
+// by the guard. The driver restarts the shard after the case.
+func (c *Ctx) Guard(heapLimit uint64, cpuBudget time.Duration) {
 	go func() {
 		var ms runtime.MemStats
 		for {
 			time.Sleep(100 * time.Millisecond)
 			runtime.ReadMemStats(&ms)
-			if ms.HeapInuse > limit {
-				fmt.Fprintf(os.Stderr, "fatal error: MEMGUARD heap in use %d MiB exceeds %d MiB\n", ms.HeapInuse>>20, limit>>20)
-				buf := make([]byte, 1<<16)
-				n := runtime.Stack(buf, true)
-				os.Stderr.Write(buf[:n])
-				os.Exit(3)
+			c.guardMu.Lock()
+			key, stream, idx, what, start := c.guardKey, c.guardStream, c.guardCase, c.guardWhat, c.guardCPU
+			c.guardMu.Unlock()
+			if key == "" {
+				continue
 			}
+			kind := ""
+			if ms.HeapInuse > heapLimit {
+				kind = fmt.Sprintf("memory: heap in use %d MiB", ms.HeapInuse>>20)
+				key += "/kind=alloc"
+			} else if cpu := CPUTime() - start; cpu > cpuBudget {
+				kind = fmt.Sprintf("cpu: %.1fs of CPU time and still running", cpu.Seconds())
+				key += "/kind=cpu"
+			}
+			if kind == "" {
+				continue
+			}
+			buf := make([]byte, 1<<16)
+			n := runtime.Stack(buf, true)
+			c.Viol(stream, idx, key, what+" exceeded the resource budget ("+kind+")", map[string]interface{}{"guard": kind, "stacks": string(buf[:n])})
+			c.mu.Lock()
+			c.snapLocked(false)
+			c.mu.Unlock()
+			fmt.Fprintf(os.Stderr, "GUARD-EXIT %s\n", kind)
+			os.Exit(3)
 		}
 	}()
+}
+
+// SetGuardKey announces the case in progress to the guard ("" = none).
+func (c *Ctx) SetGuardKey(stream string, i int, key, what string) {
+	c.guardMu.Lock()
+	c.guardKey, c.guardStream, c.guardCase, c.guardWhat = key, stream, i, what
+	if key != "" {
+		c.guardCPU = CPUTime()
+	}
+	c.guardMu.Unlock()
+}
+
+// CPUTime returns the process CPU time (user+system), load independent.
+func CPUTime() time.Duration {
+	var ru syscall.Rusage
+	syscall.Getrusage(syscall.RUSAGE_SELF, &ru)
+	return time.Duration(ru.Utime.Nano() + ru.Stime.Nano())
 }
 
 // PanicSite extracts "pkg.func" of the innermost qiloop frame from a stack.
@@ -346,4 +391,10 @@ func Try(f func()) (pv interface{}, stack string) {
 	}()
 	f()
 	return nil, ""
+}
+
+// Try2 runs f and reports whether it panicked.
+func Try2(f func()) (panicked bool) {
+	pv, _ := Try(f)
+	return pv != nil
 }
